@@ -19,7 +19,7 @@ try:
     for pid in pids:
         rc, out = sh(f"./check {pid} quick")
         sigs = []
-        for m in re.finditer(r"signature: (\S+) \((\d+)x\)", out):
+        for m in re.finditer(r"signature: (.+?) \((\d+)x\)  ", out):
             sigs.append(f"{m.group(1)} ({m.group(2)}x)")
         verdict = {0: "held (MISSED)" if pid == meta["property"] else "held", 1: "VIOLATION reported", 2: "inconclusive"}.get(rc, f"rc={rc}")
         wall = re.search(r"wall=([\d.]+)s", out)
